@@ -558,6 +558,39 @@ def _handle_codec_rule(ctx, st):
         ctx.ok(R, {"decoder": hirq.render(dec.hir["body"])[:80], "encoder": hirq.render(enc.hir["body"])[:60], "handles": 4096, "ids": 255})
 
 
+
+def _callbacks_outside_locks_rule(ctx, st, fl):
+    """a caller-supplied callback may call back into the API: it must not be invoked while one of the global table mutexes is held
+    (std Mutex is not re-entrant — a callback that calls SFileHasFile on the same archive would deadlock).  Every call through a
+    function value (a call terminator whose callee is a local, not a named function) in the crate is checked against the set of
+    guards live at that point (lock engine)."""
+    R = ctx.rule("C19.callbacks-run-outside-the-table-locks", "no call through a function value (caller-supplied callback) in storm-ffi happens while a global mutex guard is live", floor=1)
+    n = 0
+    for f in st.fn_list:
+        if not f.mir or not f.mir.get("blocks") or "::tests::" in f.path:
+            continue
+        fnl = fl.get(f.path)
+        for i, b in enumerate(f.mir["blocks"]):
+            t = b["t"]
+            if t["k"] != "call" or t["f"][0] not in ("c", "m") or t.get("x"):
+                continue
+            l0 = mirg.op_local(t["f"])
+            ty0 = (st.ty(f.mir["locals"][l0][0]) or "") if l0 is not None else ""
+            if "fn(" not in ty0:
+                continue
+            n += 1
+            ctx.saw_fn(f)
+            held = sorted(fnl.held_statics_at(i)) if fnl is not None else []
+            inst = {"fn": f.path.split("::")[-1], "line": t["ln"], "callee_type": ty0[:60]}
+            if held:
+                ctx.bad(R, "%s|callback-under-lock|%s" % (inst["fn"], ",".join(x.split("::")[-1] for x in held)), "%s:%d" % (f.file, t["ln"]), "the callback is invoked while %s is locked" % ", ".join(x.split("::")[-1] for x in held),
+                        "a callback that re-enters the API (any call that looks the archive up) blocks forever on the mutex its own caller holds")
+            else:
+                ctx.ok(R, inst)
+    if n == 0:
+        ctx.note_unarmed(R, "storm-ffi", "no call through a function value found")
+
+
 def run(ctx):
     prog = ctx.prog
     st = prog.crate("storm")
@@ -578,6 +611,7 @@ def run(ctx):
     # for every distance a caller can express within +-2^31 (what an in-memory file can hold)
     _cursor_inside_data_rule(ctx, st)
     _handle_codec_rule(ctx, st)
+    _callbacks_outside_locks_rule(ctx, st, fl)
     R_seek = ctx.rule("C19.seek-distance-composition", "SFileSetFilePointer composes (low, high) into the 64-bit distance d for d in {-2^31, -65536, -30, -1, 0, 1, 30, 65536, 2^31-1}, both with high == NULL (low = d) and with high = d >> 32, low = d & 0xFFFFFFFF", floor=2)
     sp = next((f_ for f_ in st.fn_list if f_.hir and f_.kind != "Closure" and f_.path.endswith("SFileSetFilePointer")), None)
     if sp is None:
@@ -841,6 +875,31 @@ def run(ctx):
                         "handles into a closed archive stay valid: later calls on them succeed on stale state instead of reporting ERROR_INVALID_HANDLE, and the entries leak")
         if not child:
             ctx.bad(R_purge, "child-tables|none", "-", "no child handle table recognised", "shape of the handle tables changed")
+        # ... and in this order: the archive leaves its own table *before* the child tables are purged.  SFileOpenFileEx and
+        # SFileFindFirstFile hold the archive table while they register a handle, so once the archive is gone no new child can
+        # appear; purging first leaves a window in which a concurrent open registers a handle that survives the close
+        R_ord2 = ctx.rule("C19.close-removes-the-archive-before-purging-children", "in SFileCloseArchive the removal from the archive table dominates every purge of a child table", floor=1)
+        cfg_c = mirg.Cfg(close)
+        rem_bbs, purge_bbs = [], []
+        parent_tbl = next((p_ for p_ in set(x.guard_of.values()) if p_ not in child and re.search(r"ARCHIVES$", p_)), None)
+        for bb, t in mirg.iter_calls(close):
+            c = ncallee(t) or ""
+            if re.search(r"HashMap::(retain|remove|extract_if)$", c):
+                ls, _c, _i = x.du.slice_back(op_local(t["a"][0]), depth=8)
+                tabs = {x.guard_of[g] for g in ls if g in x.guard_of}
+                if parent_tbl in tabs and c.endswith("remove"):
+                    rem_bbs.append(bb)
+                if tabs & set(child):
+                    purge_bbs.append((bb, sorted(tabs & set(child))[0]))
+        if not rem_bbs or not purge_bbs:
+            ctx.note_unarmed(R_ord2, "SFileCloseArchive", "removal from the archive table or child purges not found in the function body itself")
+        else:
+            late = [(bb, tb) for bb, tb in purge_bbs if not any(cfg_c.dominates(r_, bb) and r_ != bb for r_ in rem_bbs)]
+            if late:
+                ctx.bad(R_ord2, "SFileCloseArchive|purge-before-removal|%s" % late[0][1].split("::")[-1], close.where, "the purge of %s is not dominated by the removal of the archive from %s" % (late[0][1].split("::")[-1], parent_tbl.split("::")[-1]),
+                        "between the purge and the removal another thread can open a file (or start a search) on the archive: that handle is registered after the purge and outlives the close")
+            else:
+                ctx.ok(R_ord2, {"removal_dominates": [tb.split("::")[-1] for _b, tb in purge_bbs]})
 
     # pointer parameter derefs
     helpers = helper_summaries(st)
